@@ -179,6 +179,12 @@ def main(argv: list[str] | None = None) -> int:
     for f in wd.glob("part-*.json"):
         f.unlink()
     env = dict(os.environ)
+    import shutil
+    import tempfile
+
+    shm = "/dev/shm" if os.path.isdir("/dev/shm") and os.access("/dev/shm", os.W_OK) else tempfile.gettempdir()
+    scratch = tempfile.mkdtemp(prefix=f"cfdpmon-run-{prop}-", dir=shm)
+    env["CFDPMON_SCRATCH"] = scratch
     env["PYTHONHASHSEED"] = "0"
     env.setdefault("PYTHONDONTWRITEBYTECODE", "1")
     timeout = getattr(mod, "TIMEOUT", {"quick": 600, "thorough": 5400})[a.tier]
@@ -208,6 +214,7 @@ def main(argv: list[str] | None = None) -> int:
         if so.strip():
             sys.stderr.write(so[-2000:])
 
+    shutil.rmtree(scratch, ignore_errors=True)
     total = parts[0]["total_cases"] if parts else 0
     n = sum(p["n"] for p in parts)
     sigs: set[str] = set()
